@@ -36,7 +36,7 @@ TRUSTED (assumed contracts, each cross-checked against the real classes on every
 import z3
 
 from contracts.C15_vterm import CELL, CHARSET, GI, KIND, MODES, TERM, VT, cell, cell_eq, grid_shape, rows_of, same_value
-from contracts.C18_colours import ATTRSPEC, ATTRSPEC_ERROR, BG, DC, FG, GETTERS, LAYOUT, SPEC, WORD, BitWord, T, WordShape, bg_number, bit_index, colors_spec, fg_number, flag, real_const, wf, word
+from contracts.C18_colours import ATTRSPEC, ATTRSPEC_ERROR, BG, DC, FG, GETTERS, LAYOUT, SPEC, WORD, BitWord, WordShape, bg_number, bit_index, colors_spec, fg_number, flag, real_const, wf, word
 from pyvc import seqs as Q
 from pyvc import values as V
 from pyvc.api import *
@@ -125,10 +125,17 @@ def run_unfold(seq, i, S):
 
 
 # ---- what colours denote, and the two legitimate variants
+_XT = z3.Function("xterm256$rgb", z3.IntSort(), z3.IntSort())
+
+
 def XT(n):
-    """rgb value of entry n of xterm's 256-colour palette as the real module tabulates it (_COLOR_VALUES_256)."""
-    r, g, b = T("_COLOR_VALUES_256", n)
-    return r * 65536 + g * 256 + b
+    """rgb value of entry n (0..255) of xterm's 256-colour palette as the real module tabulates it (_COLOR_VALUES_256;
+    16..255 are the fixed cube / grey values of spec/vt100.py `denoted`: static check).  In the VCs an uninterpreted
+    function: nothing proved here depends on the values, only on `the same entry denotes the same colour`."""
+    if isinstance(n, int):
+        r, g, b = real_const("_COLOR_VALUES_256")[n]
+        return r * 65536 + g * 256 + b
+    return mk_int(_XT(V._z(n)))
 
 
 def denoted(k, v):
@@ -1004,3 +1011,127 @@ class sgi_to_attrspec:
         s.charset.fields["current"] = CHARSET.fields["current"].fresh(st, "charset.current'")
         if "display_ctrl" in s.modes.fields:
             s.modes.fields["display_ctrl"] = st.fresh_bool("modes.display_ctrl'")
+
+
+# =================================================================================================================
+# 6. TermCanvas.reverse_attrspec, csi_set_attr
+# =================================================================================================================
+def parts_comprehension(ip, st, e, fr):
+    """`[p.strip() for p in <text>.split(",")]` on a foreground text: its parts, stripped (a part of a text AttrSpec
+    reports has no blank at either end: static check of the codec)."""
+    import ast as _ast
+
+    if len(e.generators) == 1 and not e.generators[0].ifs and isinstance(e.generators[0].target, _ast.Name):
+        g = e.generators[0]
+        t = g.target.id
+        if _ast.unparse(e.elt) == f"{t}.strip()" and _ast.unparse(g.iter).endswith(".split(',')"):
+            parts = ip.eval(st, g.iter, fr)
+            if isinstance(parts, PartList):
+                return parts.snapshot()
+            raise Unsupported("split(',') of something that is not a modelled foreground text")
+    return NotImplemented
+
+
+DEFAULT_WORD = BitWord.of_int(0)
+SETTING_BITS = tuple(bit_index(c) for c in SETTING_CONST.values())
+
+
+def spec_wf(spec):
+    """None, or an AttrSpec satisfying its representation invariant (C18: established by AttrSpec.__init__, the only
+    writer of the private word) -- true of every AttrSpec value."""
+    if spec is None:
+        return True
+    return either(opt_isnone(spec), wf(word(val(spec))))
+
+
+def word_or_default(spec):
+    """The word of an optional AttrSpec, the all-default word for None (as a BitWord; never forks)."""
+    if spec is None:
+        return DEFAULT_WORD
+    isn, w = opt_isnone(spec), word(val(spec))
+    if isn is False:
+        return w
+    return BitWord([ite(isn, 0, p) for p in w.parts])
+
+
+@contract(VT + "TermCanvas.reverse_attrspec", property="C15")
+class reverse_attrspec:
+    self_shape = TERM_SGR
+    params = dict(attrspec=Opt(SPEC), undo=Bool)
+    result = SPEC
+    raises = ()
+    replayable = False
+    call_real = staticmethod(codec_call_real)
+    comprehension = staticmethod(parts_comprehension)
+    contract_overrides = CODEC
+    setup = staticmethod(codec_setup)
+    static_checks = [_xcheck_codec]
+
+    def requires(s, a):
+        return spec_wf(a.attrspec)
+
+    def ensures(old, s, a, result):
+        v0, v1 = word_or_default(a.attrspec), word(result)
+        so = bit_index("_STANDOUT")
+        mt = bit_index("_HIGH_TRUE_COLOR")
+        yield "standout-is-on-unless-undone", flag(v1, "_STANDOUT") == neg(a.undo)
+        yield "colours-and-every-other-setting-kept", both(*[p == q for i, (p, q) in enumerate(zip(v1.parts, v0.parts)) if i not in (so, mt)])
+        yield "still-a-well-formed-attrspec", both(wf(v1), flag(v1, "_HIGH_88_COLOR") == flag(v0, "_HIGH_88_COLOR"))
+        yield "the-same-value-when-standout-is-already-as-wanted", implies(flag(v0, "_STANDOUT") == neg(a.undo), v1 == v0)
+        yield "canvas-untouched", frame_sgr(old, s)
+
+
+def _csi_attr_inv(s):
+    return both(GI(s), attr_ok(s.attrspec))
+
+
+def _shows_with_reverse_video(I, R, rv):
+    """In reverse-video mode (DECSCNM, outside the statement's subset) every attribute carries standout: the
+    comparison with the reference then leaves standout out."""
+    R2 = (*R[:7], ite(rv, I[7], R[7]))
+    return both(shows(I, R2), implies(rv, I[7]))
+
+
+def csi_set_attr_clauses(old, s, a):
+    seq = a.attrs.seq
+    new, R = rend_of(s.attrspec), RUN(seq, 0, rend_of(old.attrspec))
+    # failed before the fix that removed `if attrs[-1] == 0: self.attrspec = None`: that reset also fired when the 0 was the ARGUMENT of
+    # 38;5;N / 48;5;N / 38;2;r;g;b / 48;2;r;g;b -- TermCanvas(10, 3, w); addstr(b"\x1b[1;44m"); addstr(b"\x1b[38;5;0m") gave
+    # AttrSpec('h0', 'default'): bold and the blue background lost (38;5;1 kept them)
+    yield "new-rendition-is-the-reference-applied-to-the-previous-rendition", _shows_with_reverse_video(new, R, old.modes.reverse_video)
+
+
+@contract(VT + "TermCanvas.csi_set_attr", property="C15")
+class csi_set_attr:
+    self_shape = TERM_SGR
+    params = dict(attrs=PARAMS)
+    raises = ()
+    modifies = ("attrspec",)
+    invariant = staticmethod(_csi_attr_inv)
+    inline = GETTERS
+    replayable = False
+    call_real = staticmethod(codec_call_real)
+    contract_overrides = CODEC
+    setup = staticmethod(codec_setup)
+
+    def requires(s, a):
+        return both(0 <= s.charset.active, s.charset.active <= 1)
+
+    def ensures(old, s, a, result):
+        yield from csi_set_attr_clauses(old, s, a)
+        yield "only-the-attribute-and-the-ibmpc-mapping-switches-change", both(only_sgr_mapping_changes(old, s), frame_sgr(old, s, "attrspec", "charset", "modes"))
+
+    def havoc(self, st, obj):
+        """At call sites: `attrspec` is replaced by a fresh value of the shape the CALLER's object has there (an
+        opaque attribute stays opaque); see `effects` for charset / modes."""
+        cur_v = obj.fields["attrspec"]
+        obj.fields["attrspec"] = Opt(SPEC).fresh(st, "self.attrspec'") if not isinstance(cur_v, SOpaque) else Opaque(cur_v.kind, **cur_v.meta).fresh(st, "self.attrspec'")
+
+    def effects(old, s, a, result):
+        sgi_to_attrspec.effects(old, s, a, result)
+
+    def ensures_callee(old, s, a, result):
+        if isinstance(s.fields["attrspec"], SOpaque):
+            return  # a caller that holds the attribute as an opaque individual learns nothing about it
+        yield from csi_set_attr_clauses(old, s, a)
+        yield "stored-attribute-is-well-formed", attr_ok(s.attrspec)
